@@ -353,7 +353,7 @@ int run()
         // replay files list "<op index> <text>" per line
         std::ifstream f(vx::ctx().replay);
         std::string line;
-        while (std::getline(f, line)) { if (line.empty() || line[0] == '#') continue; hist.push_back((char)atoi(line.c_str())); }
+        while (std::getline(f, line)) { if (line.empty() || !isdigit((unsigned char)line[0])) continue; hist.push_back((char)atoi(line.c_str())); }
         printf("replaying %zu operations:\n%s", hist.size(), describe(hist).c_str());
         for (size_t i = 1; i <= hist.size(); i++) { std::string k; replay(hist.substr(0, i), k); }
         printf("replay finished: %d violation(s)\n", vx::rep().violations);
